@@ -332,7 +332,8 @@ def execute(bodies, script, decorated, tape, create_ctxs=None, epilogues=None):
         ev = None
         try:
             with warnings.catch_warnings():
-                warnings.simplefilter("ignore")
+                # (a third of the cases run with warnings turned into errors, as under python -W error)
+                warnings.simplefilter("error" if STRICT_WARNINGS[0] else "ignore")
                 if st["op"] == "next":
                     out = next(g)
                     ev = ("yielded", out)
@@ -401,8 +402,12 @@ def execute(bodies, script, decorated, tape, create_ctxs=None, epilogues=None):
     return mon
 
 
+STRICT_WARNINGS = [False]
+
+
 def one(seed, i, res):
     rng = random.Random("%s:C15:%d" % (seed, i))
+    STRICT_WARNINGS[0] = i % 3 == 0
     ids = IdGen()
     ngen = rng.choice([1, 1, 2, 3, 4])
     bodies = [gen_ops(rng, ids, 0, [rng.choice([4, 8, 14])]) for _ in range(ngen)]
